@@ -304,6 +304,10 @@ func main() {
 	for i, g := range vroute.Groups { // ids in the order VerifCompileRoutingSections assigns them
 		c.id2name[int(consts.OutboundUserDefinedMin)+i] = g
 	}
+	if err := vroute.SelfTest(); err != nil { // hand-derived expectations for the reference: a failure is a broken harness
+		fmt.Fprintln(os.Stderr, "C01:", err)
+		os.Exit(2)
+	}
 	if r.ReplayArg != "" {
 		replay(r, c)
 	}
